@@ -82,6 +82,33 @@ CLAIMED["C12"] = dict(
          "scoped to units whose coefficient Ratio<i64> can hold",
     technique="Coq proof + exhaustive table evaluation + extracted-model correspondence")
 
+CLAIMED["C08"] = dict(
+    text="Axiom-free Coq theorems about the one transcription of to_base/from_base at rational storage (any base-unit vector, exponents, "
+         "coefficient, offset, value; both branches, no side condition): construction and read-back equal the conversion formula, "
+         "construct-then-read is the identity, two units differ by the coefficient ratio; integer storage equals that result truncated toward "
+         "zero (with the specification of truncation); big-number powi is the rational power; tie: BigRational/BigInt/BigUint results equal to "
+         "the extracted model on every case, and every storage type incl. Rational64/i64/i32/u64 equal to the exact rational formula applied to "
+         "the PUBLISHED coefficient()/constant() (truncated for integers)",
+    note=TB + "fixed-width types: coefficient() (num-rational's approximate_float) is an input; overflow behaviour decided only on a must-not-overflow "
+         "stream (all intermediates tiny); unsigned types scoped to non-negative results",
+    technique="Coq proof (exact arithmetic) + extracted-model correspondence + exact oracle on published coefficients")
+CLAIMED["C09"] = dict(
+    text="Axiom-free Coq theorems: a point is stored as (t+c)k/Th and read back inversely (offset applied once), intervals are linear and unit-"
+         "preserving, (point in scale s) +/- (interval in scale s') read in s is t +/- delta k'/k also across temperature base units; on the "
+         "regenerated tables: 0 degC = 273.15 K = 32 degF exactly, only the two point scales carry offsets, every interval unit is the offset-"
+         "free twin of the point unit of the same name; tie: + - += -= and interval+point for f64/f32/BigRational over kelvin/millikelvin/"
+         "kilokelvin base units on either side, every stage compared with the extracted model and the read-back with the formula",
+    note=TB + "typing facts (point+point rejected etc.) are decided by C02; float tolerance 64 ulps of the largest term",
+    technique="Coq proof + exhaustive table evaluation + extracted-model correspondence")
+CLAIMED["C16"] = dict(
+    text="Coq theorems: at exact storage, for ANY rounding function r, r-in-unit read back in the unit is r of the original value in that unit, "
+         "the result is independent of the base units, trunc+fract restores the original (offset-free units); at float storage (std, any "
+         "precision) floor/ceil/trunc/round are the mathematical Zfloor/Zceil/Ztrunc/round-half-away of the value (integer-valued, bracketing); "
+         "tie: 60 000 roundings per run (values given in the unit: integers, half-integers, k+-ulp, negatives, > 2^prec, specials; offset units; "
+         "three base sets) compared bit-exactly with the extracted model and with the mathematical rounding of the original value in the unit",
+    note=TB + "the float read-back accuracy is checked per case (few hundred ulps budget incl. offset), not by a general theorem; no-std roundings are C17's",
+    technique="Coq proof + extracted-model bit-exact correspondence + exact oracle")
+
 NOT_YET = "check under construction in this build phase; will be claimed once bin/check implements it"
 
 
